@@ -601,7 +601,9 @@ func (ex *Exec) Run() {
 		}
 		ex.block(ifs.Body.List)
 		if !ex.st.dead() {
-			final = ex.merge(final, ex.st)
+			// the recovered path first: its condition is a free boolean, so the merged values are those of the recovered path
+			// whenever it is taken (the conditions of the normal returns are usually exhaustive and would otherwise shadow it)
+			final = ex.merge(ex.st, final)
 		}
 		if ex.unsupported != "" {
 			return
